@@ -9,7 +9,8 @@ CLAIMED = {
    text="Coq theorems C19_ctor, C19_delay, C19_window over the Gallina model that tools/py2coq.py regenerates from policer.py on every run: "
         "for every interval and every history of sequential calls on a monotonic clock the delay is within [0, interval] and any two releases "
         "i<j are more than (j-i-1) intervals apart; constructor refuses rps<=0 and interval 0.  The generated model is run (extracted) against "
-        "the real RPSPolicer.wait_sync/wait on exhaustive small and random boundary histories, and the inequalities are re-evaluated on the implementation's results.",
+        "the real RPSPolicer.wait_sync/wait on exhaustive small and random boundary histories, and the inequalities are re-evaluated on the implementation's results."
+        "  Through a session: C19_session_policed / C19_session_policed_count over Model/PyLayer.v (every API call of both clients, on any script of socket results: each request is released by exactly one consultation of the session's policer); real rate-limited sessions are driven for every operation with a counting policer, and the Python layer alone is run on scripted socket results against the extracted model.",
    note="Trusted: Coq kernel/VM; py2coq translator (validated each run against policer.py); extraction (ExtrOcamlBasic) + OCaml driver; the float quotient NS/rps "
         "is an input of the constructor model; sleep/perf_counter_ns replaced by a logical clock. No axioms (Closed under the global context).",
    technique="Coq proof by induction over call histories on a model regenerated from source; differential run of extracted model vs policer.py",
@@ -29,7 +30,8 @@ CLAIMED = {
         "C17_oob_iff_community / C17_oob_iff_v3 (a request gives OutOfBuffer exactly when its reference encoding exceeds MAX_SIZE, otherwise the "
         "whole reference encoding is produced), C17_push_written / C17_skip_contract / C17_reset (only skip exposes unwritten cells).  The buffer "
         "and encoder model is run against the real Buffer and push_ber on op sequences and on messages swept octet by octet across 127/128, "
-        "255/256 and 4080; the real SnmpSession is driven across the 4080 boundary (SnmpEncodeError and nothing sent vs well-formed datagram).",
+        "255/256 and 4080; the real SnmpSession is driven across the 4080 boundary (SnmpEncodeError and nothing sent vs well-formed datagram)."
+        "  The private buffers of the DES / AES keys are covered by privacy histories (what follows the scoped PDU must be zeros written for this request).",
    note="Partial by nature: the unsafe pointer code of buffer.rs is modelled as list operations with the bounds as proof obligations, not "
         "verified against a memory model; MAX_SIZE is read from the source each run (Gen/Constants.v). No axioms.",
    technique="Coq invariant over all operation sequences + refinement of encoders to a functional spec; differential run vs Rust; API sweep",
@@ -69,7 +71,8 @@ CLAIMED = {
         "exactly where the Rust would: unchecked index, slice, clone_from_slice, division by zero, todo!()), the varbind loop terminates, and "
         "every error maps to a documented exception class through the generated error map (C01_error_classes).  Extracted decoders vs the real "
         "ones exhaustively on all inputs of <= 2 octets, on ~25k mutated messages and on privacy-decrypt inputs (debug+release); the real "
-        "SnmpSession in 6 security configurations x {get, get_many, getnext, getbulk, refresh} against replies with one defect.",
+        "SnmpSession in 6 security configurations x {get, get_many, getnext, getbulk, refresh} against replies with one defect."
+        "  Python layer: C01_sync_client_exceptions and C01_*_exceptions_closed over Model/PyLayer.v (the layer adds only TimeoutError and the end-of-iteration signals); every API call runs under a watchdog, so a call that never returns is an outcome (HANG) and a violation, as is a worker process that dies.",
    note="Trusted: Coq kernel; hand model tied by differential execution; PyO3 glue and the socket layer are exercised only by the API run. "
         "'touches no memory outside the received bytes' is the absence of out-of-range indexing in safe Rust (modelled as Panic); the unsafe "
         "buffer code is C17. The five crashing inputs of the pinned commit were repaired by fix: commits (known_findings.json). No axioms.",
@@ -92,7 +95,8 @@ CLAIMED = {
         "strictly sorted by sub-identifier lists, every base OID, every max_repetitions >= 1, agent cap >= 1 and padding, and v1 as well as "
         "v2c/v3 end-of-MIB behaviour, the GetNext walk, the GetBulk walk and fetch() yield exactly the entries strictly below the base, in "
         "order, once, then stop.  Key lemmas: byte-prefix on canonical BER = sub-identifier prefix, is_after = lexicographic order, the subtree "
-        "is a contiguous interval.  630+ walks of the real client (v1, v2c, v3 noAuth, v3 MD5+DES; sync/async) against an independent MIB agent.",
+        "is a contiguous interval.  630+ walks of the real client (v1, v2c, v3 noAuth, v3 MD5+DES; sync/async) against an independent MIB agent."
+        "  Every API walk is also replayed in Model.Walk (the functions the theorems are about) on the replies the agent really gave.",
    note="Trusted: Coq kernel; hand model of GetIter/OpGetNext/OpGetBulk and of the Python iterators tied by differential execution (C06) and "
         "by the API walks; the reference agent is a specification, the test agent an independent Python implementation. No axioms.",
    technique="Coq proof by induction over the sorted MIB; API walks against an independent RFC 3416 agent",
@@ -104,7 +108,8 @@ CLAIMED = {
         "the walk stops exactly at the first reply that is empty / out of subtree / not increasing / without data values (C06_*_stops), never "
         "crashes, and makes at most |U|+1 requests when reply OIDs come from a finite set U (C06_terminates, C06_request_bound_*).  "
         "Exhaustive reply streams over a 9-OID x 4-value universe (54872 GetNext streams of depth 3, ~19k GetBulk) through the real "
-        "OpGetNext/OpGetBulk + GetIter (debug+release), and scripted agents incl. repeating ones against the real iterators.",
+        "OpGetNext/OpGetBulk + GetIter (debug+release), and scripted agents incl. repeating ones against the real iterators."
+        "  C06_getbulk_context / C06_sync_buffer_drained over Model/PyLayer.v; API walks with oversized GetBulk replies are also run in Model.Walk and the follow-up OID of every request is checked.",
    note="Trusted: Coq kernel; hand model tied by exhaustive differential execution. The repeated-OID defect of the pinned commit was repaired "
         "by a fix: commit (known_findings.json). No axioms.",
    technique="Coq invariants over arbitrary reply streams; exhaustive small-universe differential run; adversarial API agents",
@@ -114,7 +119,8 @@ CLAIMED = {
         "data kind -> its Python value, >= 2 varbinds -> SnmpDecodeError, Report -> SnmpAuthError, other PDUs -> SnmpDecodeError), "
         "C07_getmany (the dict is exactly the left-to-right fold of the data-valued varbinds keyed by dotted OID, later duplicates overwrite, "
         "keys distinct), C07_error_family (exception classes re-checked against the generated error map).  10k responses through the real "
-        "to_python (debug+release) and 144 API calls (v1, v2c, v3; sync/async) judged by an independent table.",
+        "to_python (debug+release) and 144 API calls (v1, v2c, v3; sync/async) judged by an independent table."
+        "  C07_python_sync_passthrough / C07_python_async_passthrough over Model/PyLayer.v: the Python layer hands the socket method's result or exception through unchanged (BlockingIOError -> TimeoutError in the blocking client).",
    note="Trusted: Coq kernel; hand model; generated Gen/ErrorMap.v (translator tools/gen_errormap.py). No axioms.",
    technique="Coq case analysis over the model + generated error map; differential run vs Rust; API run with independent oracle",
    ref="5 C07"),
@@ -125,7 +131,8 @@ CLAIMED = {
         "(C03_community_emit, C03_history_independent, C03_pool_always_reset), the v3 plain datagram is exactly enc_v3 with the socket's engine "
         "id / boots / time / user (C03_v3_emit_plain; flags and ids for every security level: C03_v3_state_and_flags), fetch policy and "
         "max_repetitions default; the reference encodings decode back (C03_strict_roundtrip_*).  ~200 datagrams of 8 concurrent sessions with "
-        "interleaved calls are strictly decoded by an independent decoder and reproduced octet for octet by the extracted model (incl. HMAC, DES, AES).",
+        "interleaved calls are strictly decoded by an independent decoder and reproduced octet for octet by the extracted model (incl. HMAC, DES, AES)."
+        "  C03_getmany_passes_oids over Model/PyLayer.v (get_many hands its OIDs to the socket unchanged); Python-layer scripts with repeated OIDs.",
    note="Trusted: Coq kernel; hand model tied by differential execution; random ids/salts read from the wire; for authenticated/encrypted "
         "messages the emitted octets are proved in C09/C11 and checked here by correspondence. No axioms.",
    technique="Coq refinement of the emit path to reference encodings + pool invariant; API correspondence with an independent strict decoder",
@@ -206,7 +213,8 @@ CLAIMED = {
         "decision table of as_key_type on the two key-type bits incl. refusal of empty passwords, wrong sizes and type 0xc0 "
         "(C12_key_type_dispatch, C12_key_type_never_panics), algorithm codes (C12_algorithm_code), and the Python-visible functions never "
         "panic (C12_get_master_key, C12_get_localized_key).  Extracted model (Gallina MD5/SHA-1, 1 MiB per key) vs the real functions incl. "
-        "RFC 3414 A.3 vectors, key-length sweep 0..64, unknown codes; sessions with password/master/localized keys verified with hashlib.",
+        "RFC 3414 A.3 vectors, key-length sweep 0..64, unknown codes; sessions with password/master/localized keys verified with hashlib."
+        "  user.py (User getters) against Model.Session, and SnmpV3ClientSocket's constructor / set_keys driven directly for engine ids of 0..32 octets against Model.V3 and hmac.",
    note="Trusted: Coq kernel; Gallina MD5/SHA-1 as in C09; user.py key alignment is modelled in Model/Session.v and exercised by the session "
         "runs of C12/C13. No axioms.",
    technique="Coq proof of the A.2 identities over an abstract streaming digest + dispatch table; differential run incl. RFC vectors; hashlib oracle",
